@@ -1,4 +1,5 @@
 import Nsq.Gen.ToolsRelayOpts
+import Nsq.Model.RelayOpts
 /-!
 Tie of the C20 round-6 models to the current tree (regenerated leg, spec `specs/e8_relay_opts.json`).
 
@@ -49,5 +50,25 @@ def expected_toNsqMainLoop : List String := [
   ".producer.Stop()"]
 
 theorem toNsqMainLoop_eq : toNsqMainLoop = expected_toNsqMainLoop := rfl
+
+
+/-! ### nsq_to_http `parseCustomHeaders`: translated (kind `maploop`) and proved equal to the model -/
+open Nsq.Model.RelayOpts
+
+theorem parseCustomHeaders_step_eq (m : List (Str × Str)) (s : Str) :
+    Nsq.Gen.ToolsRelayOpts.parseCustomHeaders_step m s = headerStep m s := by
+  unfold Nsq.Gen.ToolsRelayOpts.parseCustomHeaders_step headerStep parseHeader splitN2
+  cases h : cut 58 s with
+  | none => simp
+  | some kv =>
+    obtain ⟨k, v⟩ := kv
+    by_cases h1 : trimSpace k = [] <;> by_cases h2 : trimSpace v = [] <;> simp [h1, h2]
+
+theorem parseCustomHeaders_eq (strs : List Str) :
+    Nsq.Gen.ToolsRelayOpts.parseCustomHeaders strs = Nsq.Model.RelayOpts.parseCustomHeaders strs := by
+  unfold Nsq.Gen.ToolsRelayOpts.parseCustomHeaders Nsq.Model.RelayOpts.parseCustomHeaders
+  congr 1
+  funext m s
+  exact parseCustomHeaders_step_eq m s
 
 end Nsq.Tie.ToolsRelayOpts
